@@ -36,7 +36,7 @@ func vIsSuccess(r *stun.Message) bool {
 
 // Refresh: takes effect only with valid credentials of the owner; lifetime arithmetic and timer link.
 //
-//verif:props=C03,C06,C19,C04 replay=model bounds="LIFETIME absent or any of 2^32 values; any configured default of 1..2^32-1 whole seconds; owner = authenticated user or another user; arbitrary credential verdicts; a second allocation of another client present"
+//verif:props=C03,C06,C19,C04 replay=model bounds="LIFETIME absent or any of 2^32 values; any configured default of 1..2^32-1 whole seconds; owner = authenticated user or another user; arbitrary credential verdicts; REQUESTED-ADDRESS-FAMILY absent or any 3/4-byte value; a second allocation of another client present"
 func VerifHarness_C06_refresh() {
 	s := vNewSrv(false, false)
 	s.lt = time.Duration(vU32()) * time.Second // configured default: whole seconds 1..2^32-1
@@ -55,13 +55,24 @@ func VerifHarness_C06_refresh() {
 	if hasLT {
 		setters = append([]stun.Setter{vRawAttr{stun.AttrLifetime, []byte{byte(secs >> 24), byte(secs >> 16), byte(secs >> 8), byte(secs)}}}, setters...)
 	}
+	famOK := true
+	if vBool() {
+		// RFC 6156: a Refresh may carry REQUESTED-ADDRESS-FAMILY (any value, possibly malformed); anything but the
+		// allocation's own family (IPv4 here) is refused
+		fam := vBytesN(vPick(3, 4))
+		setters = append([]stun.Setter{vRawAttr{stun.AttrRequestedAddressFamily, fam}}, setters...)
+		famOK = vAnd(len(fam) == 4, fam[0] == 0x01)
+	}
 	msg := vNewMsg(stun.MethodRefresh, stun.ClassRequest, setters...)
 	req := s.request(c1)
 	vAdvance(vI64())
 	now := vClock()
 	_ = handleRefreshRequest(req, msg)
 	r := s.response(req, msg, stun.MethodRefresh)
+	// a Refresh that is not answered with success changes nothing (whatever the reason it was refused for)
+	vAssertIf(!vIsSuccess(r), vAnd(s.env.M.GetAllocation(a.VFiveTuple()) == a, vTimerResets(a.VLifetimeTimer()) == 0), "C06.refused_refresh_changes_nothing")
 	entitled := vAnd(s.authPassed(), owner == s.auth.userID)
+	effective := vAnd(entitled, famOK)
 	granted := s.lt
 	if hasLT && secs < 3600 {
 		granted = time.Duration(secs) * time.Second
@@ -73,11 +84,11 @@ func VerifHarness_C06_refresh() {
 	vAssertIf(!entitled, !vIsSuccess(r), "C03.refresh_without_owner_credentials_gets_no_success")
 	vAssertIf(vIsSuccess(r), entitled, "C03.refresh_success_implies_owner_credentials")
 	// effect with them
-	vAssertIf(vAnd(entitled, granted != 0), vAnd(stillThere, resets == 1), "C06.refresh_rearms_the_allocation_timer_once")
-	vAssertIf(vAnd(entitled, granted != 0), vTimerDur(a.VLifetimeTimer()) == granted, "C06.refresh_arms_exactly_the_granted_lifetime")
-	vAssertIf(vAnd(entitled, granted != 0), vTimerDeadline(a.VLifetimeTimer()) == now+int64(granted), "C06.refresh_counts_from_now")
-	vAssertIf(vAnd(entitled, granted == 0), !stillThere, "C06.refresh_zero_deletes_immediately")
-	vAssertIf(vAnd(entitled, granted == 0), a.VRelay().Closed == 1, "C06.refresh_zero_closes_the_relay")
+	vAssertIf(vAnd(effective, granted != 0), vAnd(stillThere, resets == 1), "C06.refresh_rearms_the_allocation_timer_once")
+	vAssertIf(vAnd(effective, granted != 0), vTimerDur(a.VLifetimeTimer()) == granted, "C06.refresh_arms_exactly_the_granted_lifetime")
+	vAssertIf(vAnd(effective, granted != 0), vTimerDeadline(a.VLifetimeTimer()) == now+int64(granted), "C06.refresh_counts_from_now")
+	vAssertIf(vAnd(effective, granted == 0), !stillThere, "C06.refresh_zero_deletes_immediately")
+	vAssertIf(vAnd(effective, granted == 0), a.VRelay().Closed == 1, "C06.refresh_zero_closes_the_relay")
 	if vIsSuccess(r) {
 		var lt proto.Lifetime
 		vAssert(lt.GetFrom(r) == nil, "C06.refresh_success_reports_a_lifetime")
@@ -86,7 +97,8 @@ func VerifHarness_C06_refresh() {
 	// the other client's allocation is never touched
 	vAssert(s.env.M.GetAllocation(b.VFiveTuple()) == b, "C04.refresh_never_deletes_another_five_tuple")
 	vAssert(vTimerResets(b.VLifetimeTimer()) == 0, "C04.refresh_never_refreshes_another_five_tuple")
-	vCover(vAnd(entitled, granted == 0), "C06.cover_refresh_zero")
+	vCover(vAnd(effective, granted == 0), "C06.cover_refresh_zero")
+	vCover(vAnd(entitled, !famOK), "C06.cover_refresh_refused_for_its_address_family")
 	vCover(vAnd(entitled, vAnd(hasLT, secs >= 3600)), "C06.cover_lifetime_capped_to_default")
 	vCover(vAnd(s.authPassed(), owner != s.auth.userID), "C03.cover_other_users_valid_credentials")
 	vReach("end")
@@ -94,7 +106,7 @@ func VerifHarness_C06_refresh() {
 
 // CreatePermission: veto and family rules, owner/credential rule, timers.
 //
-//verif:props=C01,C03,C07,C19,C04 replay=model bounds="IPv4 or IPv6 allocation; two XOR-PEER-ADDRESS attributes encoded by hand (family 1 or 2, incl. IPv4-mapped sent as IPv6); arbitrary permission-handler verdict per address; owner or other user; arbitrary credential verdicts"
+//verif:props=C01,C03,C07,C19,C04,C02 replay=model bounds="IPv4 or IPv6 allocation; two XOR-PEER-ADDRESS attributes encoded by hand (family 1 or 2, incl. IPv4-mapped sent as IPv6); arbitrary permission-handler verdict per address; owner or other user; arbitrary credential verdicts"
 func VerifHarness_C01_create_permission() {
 	s := vNewSrv(false, true)
 	s.pt = time.Duration(vI64())
@@ -145,6 +157,7 @@ func VerifHarness_C01_create_permission() {
 		vFire(first.VTimer())
 		vAssert(a.GetPermission(&net.UDPAddr{IP: p1.ip}) == nil, "C01.expired_permission_never_authorises")
 		vAssert(a.GetPermission(&net.UDPAddr{IP: p1.ip}) == nil, "C07.expiry_removes_that_peers_permission")
+		vAssert(a.GetPermission(&net.UDPAddr{IP: p1.ip}) == nil, "C02.expired_permission_no_longer_admits_that_peers_datagrams")
 		vAssert(a.GetPermission(&net.UDPAddr{IP: p2.ip}) == second, "C07.expiry_removes_only_that_peers_permission")
 	}
 	vCover(vIsSuccess(r), "C01.cover_create_permission_success")
